@@ -395,7 +395,7 @@ func sources(v ssa.Value, o deriveOpts) []ssa.Value {
 			leaves = append(leaves, v)
 		case *ssa.Call:
 			n := calleeFull(&x.Call)
-			if o.through != nil && n != "" && o.through(n) {
+			if n == "builtin.min" || n == "builtin.max" || (o.through != nil && n != "" && o.through(n)) {
 				for _, a := range x.Call.Args {
 					walk(a, d)
 				}
